@@ -493,6 +493,137 @@ def r7_5(ctx):
             {"over_all": over_all, "fails": fails, "tail_true": bool(tail_true)})
 
 
+STATE_FIELDS = ("goals_to_remove", "seen_goals", "removed_goals", "new_goals")
+ADDITIVE = {"insert", "push_back", "emplace", "emplace_back", "push"}
+SUBTRACTIVE = {"erase", "pop_back", "pop"}
+
+
+def _state_mutations(ix, block):
+  """Ordered (kind, field, node) events of one statement list: mutations of
+  TraverseState fields and pushes onto the action stack."""
+  out = []
+  for n in cxx.walk(block):
+    if n.get("kind") != "CXXMemberCallExpr":
+      continue
+    key, fn, nm, obj = ix.callee(n)
+    t = term(ix, obj) if obj is not None else None
+    ts = str(t)
+    if isinstance(t, tuple) and t[0] == "field" and "TraverseState::" in t[1]:
+      f = t[1].split("::")[-1]
+      if nm in ADDITIVE:
+        out.append(("add", f, n))
+      elif nm in SUBTRACTIVE:
+        out.append(("sub", f, n))
+    elif isinstance(t, tuple) and t[0] == "var" and t[1] == "actions" and nm in ("emplace", "push"):
+      args = [uncast(term(ix, a)) for a in inner(n)[1:]]
+      what = args[0][1] if args and args[0][0] == "var" else str(args[0]) if args else "?"
+      out.append(("push", what, n))
+  out.sort(key=lambda e: (_line(e[2]), ((e[2].get("range") or {}).get("begin") or {}).get("col", 0)))
+  return out
+
+
+@rule("R7.6", "C07", floor=9)
+def r7_6(ctx):
+  """Undo discipline of the goal-removal state machine.
+
+  remove_finished_goals explores alternatives depth-first on one mutable
+  TraverseState; every mutation must push its inverse on the action stack
+  (ERASE_<field> after an insertion, INSERT_<field> after a removal) and the
+  switch must apply that inverse to the same field - otherwise goals leak
+  from one source-set alternative into the next.
+  """
+  ix = _ix(ctx)
+  enum = None
+  for tu in ("solver.cc",):
+    for o in cxx.dump_tu(ctx, tu):
+      for n in cxx.walk(o):
+        if n.get("kind") == "EnumDecl" and n.get("name") == "ActionType":
+          enum = [c.get("name") for c in inner(n) if c.get("kind") == "EnumConstantDecl"]
+  if not enum:
+    raise AnalysisError("enum ActionType not found")
+  undo_kinds = [e for e in enum if e.startswith(("ERASE_", "INSERT_"))]
+  tr = ix.find("internal::traverse")[0]
+  rm = ix.find("internal::remove_finished_goals")[0]
+  # (1) in traverse: each mutation is immediately followed by its inverse push
+  ev = _state_mutations(ix, tr.body)
+  n_mut = 0
+  for i, (kind, f, node) in enumerate(ev):
+    if kind not in ("add", "sub"):
+      continue
+    n_mut += 1
+    want = ("ERASE_" if kind == "add" else "INSERT_") + f.upper()
+    nxt = next((e for e in ev[i + 1:] if e[0] in ("push", "add", "sub")), None)
+    ok = nxt is not None and nxt[0] == "push" and nxt[1] == want
+    ctx.check(ok, f"traverse:{f}:{'insert' if kind == 'add' else 'erase'}->{want}", SC, _line(node),
+              f"the {'insertion into' if kind == 'add' else 'removal from'} "
+              f"state.{f} at line {_line(node)} is not followed by pushing its "
+              f"inverse {want} (next event: {nxt and nxt[:2]}): the change "
+              "survives backtracking into the next alternative",
+              {"next": nxt and list(nxt[:2])})
+  if n_mut < 4:
+    raise AnalysisError(f"traverse: only {n_mut} state mutations recognised")
+  # (2) in the switch: each undo kind applies the inverse to its own field
+  sw = [n for n in cxx.walk(rm.body) if n.get("kind") == "SwitchStmt"]
+  if len(sw) != 1:
+    raise AnalysisError("remove_finished_goals: action switch not found")
+  cases = {}
+  cur = None
+  body = inner(sw[0])[-1]
+  for st in inner(body):
+    node = st
+    while node.get("kind") in ("CaseStmt", "DefaultStmt"):
+      lab = inner(node)[0]
+      nm = None
+      for x in cxx.walk(lab):
+        if x.get("kind") == "DeclRefExpr":
+          nm = (x.get("referencedDecl") or {}).get("name")
+      cur = nm if node.get("kind") == "CaseStmt" else "default"
+      cases.setdefault(cur, [])
+      node = inner(node)[-1]
+    if cur is not None:
+      cases[cur].append(node)
+  for k in undo_kinds:
+    if k not in cases:
+      ctx.bad(f"switch:{k}", SC, _line(sw[0]), f"action {k} is never handled")
+      continue
+    f = k.split("_", 1)[1].lower()
+    want_kind = "sub" if k.startswith("ERASE_") else "add"
+    evs = [e for st in cases[k] for e in _state_mutations(ix, st) if e[0] in ("add", "sub")]
+    ok = len(evs) == 1 and evs[0][0] == want_kind and evs[0][1] == f
+    ctx.check(ok, f"switch:{k}", SC, _line(cases[k][0]) if cases[k] else _line(sw[0]),
+              f"case {k} must {'remove from' if want_kind == 'sub' else 'insert into'} "
+              f"state.{f} exactly once; it does {[(e[0], e[1]) for e in evs]}",
+              {"effects": [(e[0], e[1]) for e in evs]})
+  # (3) the source-set arm: continuation first, then per-goal insert+undo, TRAVERSE last
+  arm = cases.get("TRAVERSE_ALL_SOURCE_SETS")
+  if not arm:
+    raise AnalysisError("TRAVERSE_ALL_SOURCE_SETS arm not found")
+  ev = [e for st in arm for e in _state_mutations(ix, st)]
+  kinds = [(e[0], e[1]) for e in ev]
+  cont = [i for i, e in enumerate(ev) if e[0] == "push" and e[1] == "action"]
+  adds = [i for i, e in enumerate(ev) if e[0] == "add"]
+  undo = [i for i, e in enumerate(ev) if e[0] == "push" and e[1].startswith(("ERASE_", "INSERT_"))]
+  trav = [i for i, e in enumerate(ev) if e[0] == "push" and e[1] == "TRAVERSE"]
+  ok = len(cont) == 1 and len(trav) == 1 and adds and undo and \
+      cont[0] < min(adds) and max(undo) < trav[0] and trav[0] == len(ev) - 1
+  ctx.check(ok, "source-set-arm:push-order", SC, _line(arm[0]),
+            "LIFO discipline: the continuation for the remaining source sets "
+            "must be pushed before this alternative's goals and their undo "
+            f"actions, and TRAVERSE last; observed order {kinds}", {"order": kinds})
+  pair_ok = all(ev[i + 1][0] == "push" and ev[i + 1][1] == "ERASE_" + ev[i][1].upper()
+                for i in adds if i + 1 < len(ev))
+  ctx.check(pair_ok, "source-set-arm:insert-undo", SC, _line(arm[0]),
+            "each goal inserted for this alternative must push its ERASE undo",
+            {"order": kinds})
+  # every action kind is produced somewhere (an undo kind nobody pushes is a lost undo)
+  produced = {e[1] for e in _state_mutations(ix, tr.body) + _state_mutations(ix, rm.body)
+              if e[0] == "push"}
+  for k in undo_kinds:
+    ctx.check(k in produced, f"produced:{k}", SC, tr.line,
+              f"undo action {k} is handled by the switch but never pushed",
+              {"produced": sorted(produced)})
+
+
 def _tg(n):
   return f"pytype/typegraph/{n}"
 
@@ -544,4 +675,13 @@ VARIANTS = [
     {"name": "twin-log-line-added", "rule": "R7.1", "file": _tg("solver.cc"), "expect": "silent",
      "old": "    current_depth += 1;\n    if (GoalsConflict(result.removed_goals)) {",
      "new": "    current_depth += 1;\n    LOG(INFO) << indent << \"checking\";\n    if (GoalsConflict(result.removed_goals)) {"},
+    {"name": "seen-goals-undo-dropped", "rule": "R7.6", "file": _tg("solver.cc"), "expect": "fire",
+     "old": "  actions.emplace(ERASE_SEEN_GOALS, it);\n", "new": ""},
+    {"name": "continuation-pushed-after-undo", "rule": "R7.6", "file": _tg("solver.cc"), "expect": "fire",
+     "old": "        if (action.source_sets_it[0] != action.source_sets_it[1]) {\n          actions.push(action);\n        }\n        for (const Binding* next_goal : source_set) {\n          auto [it, added] = state.goals_to_remove.insert(next_goal);\n          if (added) {\n            actions.emplace(ERASE_GOALS_TO_REMOVE, next_goal);\n          }\n        }\n",
+     "new": "        for (const Binding* next_goal : source_set) {\n          auto [it, added] = state.goals_to_remove.insert(next_goal);\n          if (added) {\n            actions.emplace(ERASE_GOALS_TO_REMOVE, next_goal);\n          }\n        }\n        if (action.source_sets_it[0] != action.source_sets_it[1]) {\n          actions.push(action);\n        }\n"},
+    {"name": "erase-new-goals-pops-removed", "rule": "R7.6", "file": _tg("solver.cc"), "expect": "fire",
+     "old": "      case ERASE_NEW_GOALS:\n        state.new_goals.pop_back();", "new": "      case ERASE_NEW_GOALS:\n        state.removed_goals.pop_back();"},
+    {"name": "twin-undo-comment-only", "rule": "R7.6", "file": _tg("solver.cc"), "expect": "silent",
+     "old": "  actions.emplace(ERASE_SEEN_GOALS, it);\n", "new": "  // undo on backtrack\n  actions.emplace(ERASE_SEEN_GOALS, it);\n"},
 ]
